@@ -285,6 +285,31 @@ pub fn run(ctx: &mut Ctx) {
             }
         }
 
+        // a well-formed attachment assertion that carries an assertion of its own (salted): whatever the queries make of
+        // it (the unchanged library reports it invalid), nothing they RETURN may be unreadable as an attachment or
+        // fail to match the filter
+        if let Some((p, v, c)) = added.first() {
+            let decorated = Envelope::new_attachment(p.clone(), v, c.as_deref()).add_salt();
+            if let Ok(holder3) = e.add_assertion_envelope(decorated) {
+                ctx.eval();
+                ctx.count("decorated_attachment_assertions");
+                for (fv, fc) in [(None, None), (Some(v.as_str()), None), (Some("no.such.vendor"), None), (None, Some("no-such-format"))] {
+                    match trap::guard(|| holder3.attachments_with_vendor_and_conforms_to(fv, fc)) {
+                        Ok(Ok(list)) => {
+                            for a in list {
+                                let readable = a.attachment_payload().is_ok() && a.attachment_vendor().is_ok() && a.attachment_conforms_to().is_ok();
+                                let matches = fv.map(|x| a.attachment_vendor().ok().as_deref() == Some(x)).unwrap_or(true) && fc.map(|x| a.attachment_conforms_to().ok().flatten().as_deref() == Some(x)).unwrap_or(true);
+                                if !readable || !matches {
+                                    ctx.violation("filter/returned-unreadable-or-unmatched", &format!("a query (vendor={:?} conformsTo={:?}) returned an element that cannot be read as an attachment or does not match the filter", fv, fc), jhex(&holder3));
+                                }
+                            }
+                        }
+                        Ok(Err(_)) => {}
+                        Err(pn) => ctx.violation(&format!("decorated-attachment/panic/{}", pn.signature()), &format!("{:?}", pn), jhex(&holder3)),
+                    }
+                }
+            }
+        }
         // types
         let nt = rng.below(4);
         let mut kv_types: HashSet<u64> = HashSet::new();
